@@ -650,7 +650,8 @@ class PuritySim:
             self.probe("sweeper_client")
         n_ops = k["n_ops"] + n_sweep
         idle = 0
-        while len(self.schedule) < n_ops and idle < 200:
+        self.extra_ops = 0
+        while len(self.schedule) < n_ops + self.extra_ops and idle < 200:
             u = rf.random()
             if u < k["p_evict"]:
                 cands = [(n, name) for n in self.world.order if n in self.world.env for name in catalog.populated(self.world.env[n])]
@@ -679,6 +680,44 @@ class PuritySim:
                 idle += 1
                 continue
             self.apply(op)
+            if op.get("op") == "node" and (op.get("node") or {}).get("kind") == "derive":
+                self.after_derive_hint(client, op["node"], rs)
+
+    def after_derive_hint(self, client, spec, rs):
+        """
+        A workload hint, not an oracle: when a derived object shares a PRIVATE mutable container (dict / list / set that is not a
+        cached_property) by identity with its source, something hand-rolled travelled through the derivation.  That is legal if it
+        is keyed on the contents - so nothing is reported - but it is exactly where a stale answer would come from, so the derived
+        object and its source are asked a sweep of query calls in pairs (same call, same arguments, source first) and the source is
+        asked its recent questions again.
+        """
+        env = self.world.env
+        nid, src = spec["id"], spec["src"]["$node"]
+        new, old = env.get(nid), env.get(src)
+        dn, do = getattr(new, "__dict__", None), getattr(old, "__dict__", None)
+        if not dn or not do or new is old:
+            return
+        cached = set(catalog.cached_names(type(new)))
+        carried = [k for k, v in dn.items() if k.startswith("_") and k not in cached and k in do and do[k] is v and isinstance(v, (dict, list, set))]
+        if not carried:
+            return
+        self.probe("derived_shares_private_container_with_source")
+        if os.environ.get("VERIF_DEBUG_CALLS"):
+            self.probe(f"hint:{type(new).__name__}:{catalog.q_label(spec['q'])}:{','.join(carried)}")
+        reads = []
+        for _ in range(2):
+            reads += [c for c in catalog.curated_calls(new, rs, self.nodes_by_type(), env) if c["t"] == "call"]
+        rs.shuffle(reads)
+        for c in reads[:12]:
+            # the same question, same arguments, to the source and then to the derived object: whatever the shared container
+            # remembers for these arguments is now the source's answer
+            client["queue"].append({"op": "read", "client": client["name"], "target": src, "q": c})
+            client["queue"].append({"op": "read", "client": client["name"], "target": nid, "q": c})
+        for q_old in list(self.read_history.get(src, []))[-3:]:
+            client["queue"].append({"op": "read", "client": client["name"], "target": src, "q": q_old})
+        # the run is extended so that the sweep is actually carried out (once per run: the hint can fire for every derivation)
+        if not self.extra_ops:
+            self.extra_ops = 3 * len(client["queue"])
 
     def propose(self, client, rs):
         k = self.knobs
